@@ -99,10 +99,32 @@ def d2(rep, f, c):
     n = 0
     for fn, wants in sorted(table.items()):
         b = f.body(fn)
+        or_fold = False
+        if b is None and '::{closure#' in fn and f.body(fn.split('::{closure#')[0]) is not None:
+            # the per-unit closure (`s.iter().all(|b| *b < K)`) is gone: the same test may be made on the OR of all units
+            # (`accu |= *b` ... `accu & !(K - 1) == 0`), which is the same for a power-of-two K
+            fn = fn.split('::{closure#')[0]
+            b = f.body(fn)
+            or_fold = True
         if b is None:
             rep.undecidable('C16-D2', fn, 'function not found in configuration', None, c)
             continue
         preds = scalar_predicates(f, b)
+        if or_fold:
+            rr_ = Resolver(b)
+            good = all(len(w) & (len(w) - 1) == 0 and 0 in w for w in wants)
+            for p_ in preds:
+                if p_['bits'] > 16 or p_['leaf'][0] != 'loc':
+                    good = False
+                    continue
+                acc_l = p_['leaf'][1]
+                for bi_, si_, k_, nd_ in b.defs.get(acc_l, []):
+                    v_ = rr_.rvalue(nd_['rv']) if k_ == 'assign' else None
+                    is_zero = v_ is not None and v_[0] == 'c' and v_[1] == 0
+                    is_or = v_ is not None and v_[0] == 'bin' and v_[1] == 'BitOr' and ('loc', acc_l) in (v_[2], v_[3])
+                    good = good and (is_zero or is_or)
+            rep.ob('C16-D2.reducer', fn, good and bool(preds), 'the bound is tested on an accumulator that is not the bitwise OR of all units starting from 0 '
+                   '(or the bound is not a power of two, for which the OR test is not the per-unit test)', sp_str(b.raw['span']), {'form': 'or-fold'}, c)
         if '{closure#' not in fn:
             # a test moved into a closure (`buffer.iter().position(|u| *u >= 0x100)`) is still this function's test
             for cname, cb in sorted(f.bodies.items()):
